@@ -14,6 +14,12 @@ CHECKS = {
  "C02": dict(cat="exploration", tech="deviation-bounded exhaustive exploration of an independent reference PDF writer's choice points (choice recorder): 0 deviations, every single deviation at every choice point, pairs at class level; strict-reader self-check then lopdf load vs abstract document",
    text="Every syntactic freedom of the reference writer is a recorded choice point; all executions with <=1 deviation (instance level) and <=2 deviations (class level; quick runs a seed-rotated quarter of the pairs) over 32 abstract documents are generated, validated by the strict reader and loaded by lopdf, which must return exactly the abstract document.",
    note="trusts the reference writer (harness/src/refpdf.rs) and strict reader as readings of ISO 32000-1 7.2-7.5; hybrid-reference files and freed objects excluded as in the property"),
+ "C07": dict(cat="model_checking", tech="explicit-state enumeration of all revision histories up to depth k (tree of history prefixes), two producers: independent reference writer (Prev-chained tables/streams, object streams) and IncrementalDocument replay; every node loaded by the real reader against the model 'newest definition wins'",
+   text="All histories of <=2 (quick) / <=3 (thorough) revisions over 3 bases x 24/48 revision kinds x xref styles: the complete file of every history prefix is loaded and must yield, per object number, the newest definition; IncrementalDocument saves must keep the previous bytes as prefix, append only changed objects with a section whose Prev is the previous startxref (checked by the strict reader), leave the previous view untouched and reload to the model.",
+   note="trusts reference writer + strict reader; schedule pinned through hook H1 (Sorted) so the verdict cannot depend on thread timing; no freed objects / hybrid files"),
+ "C08": dict(cat="model_checking", tech="stateless exhaustive schedule enumeration on the real Reader through merge-order hook H1: all k! x z! completion orders of the object-stream blocks and zero-length list per file; differential against the sequential (no-default-features) build",
+   text="For every generated file (up to 4/6 object-stream containers with duplicated object numbers, listed or unlisted in the cross-reference data, deferred-length and empty streams) every completion order of the parallel phase is forced through the hook and the canonical digest of the loaded document must be identical for all orders and equal to the sequential build's.",
+   note="rests on the argument (DESIGN §3) that the two mutex-protected appends are the only schedule-visible actions; free-running loads on pools of 1..16 threads are supplementary sampling and labelled so"),
  "C18": dict(cat="exploration", tech="exhaustive enumeration of all 2,879 minute-precision UTC offsets x instant menu x backends x ordered backend pairs against an integer-arithmetic reference formatter; one child process per offset for chrono Local (TZ)",
    text="All offsets -23:59..+23:59 x 12 instants x 5 writer types x 3 reader types: the produced string must equal the reference formatting, all backends agree, parsing returns the same instant (and offset where kept); the specification's short forms must parse.",
    note="trusts harness/src/refdate.rs (self-checked against published epoch anchors and a day-by-day walk); instants are a menu, offsets exhaustive"),
